@@ -172,6 +172,28 @@ pub fn order_admissible(reference: &[Row], desc: &[bool], got: &[Vec<V>]) -> boo
 pub const EXEC_DIALECTS: [Dialect; 2] = [Dialect::SQLite, Dialect::Generic];
 
 /// true iff the outermost SELECT ends in `ORDER BY <projected columns>` and `rows` are not sorted that way
+/// the statement without the LIMIT / OFFSET of its outermost SELECT (None if it has none)
+pub fn strip_outer_limit(sql: &str) -> Option<String> {
+    let mut depth = 0i32;
+    let mut last_top = 0usize;
+    for (i, c) in sql.char_indices() {
+        match c {
+            '(' => depth += 1,
+            ')' => {
+                depth -= 1;
+                if depth == 0 {
+                    last_top = i + 1;
+                }
+            }
+            _ => {}
+        }
+    }
+    let tail = &sql[last_top..];
+    let ob = tail.rfind("ORDER BY ")?;
+    let cut = [" LIMIT ", " OFFSET "].iter().filter_map(|k| tail[ob..].find(k)).min()?;
+    Some(format!("{}{}", &sql[..last_top], &tail[..ob + cut]))
+}
+
 pub fn engine_violates_own_order_by(sql: &str, names: &[String], rows: &[Vec<V>]) -> bool {
     // text after the last top-level closing parenthesis = the outermost SELECT
     let mut depth = 0i32;
@@ -436,6 +458,17 @@ pub fn check_program(db: &Db, prog: &Program, insts: &[Inst]) -> Outcome {
             };
             hasher_acc = hasher_acc.wrapping_mul(31).wrapping_add(crate::report::fnv(&show_rows(&got)));
             if !multiset_eq(&ref_rows, &got) {
+                // second opinion about the *engine* (see the order check below): a LIMIT / OFFSET of the outermost
+                // SELECT picks other rows when the engine returns them in an order that contradicts the statement's
+                // own ORDER BY. Run the statement without that LIMIT and test the engine against itself.
+                if let Some(unlimited) = strip_outer_limit(sql) {
+                    if let Ok((_, all_rows)) = db.query(&unlimited) {
+                        if engine_violates_own_order_by(&unlimited, &names, &all_rows) {
+                            *out.undecided.entry("engine result violates the statement's own ORDER BY (SQLite optimizer defect)".into()).or_insert(0) += 1;
+                            continue;
+                        }
+                    }
+                }
                 if !rows_reported {
                     rows_reported = true;
                     out.findings.push(Finding {
